@@ -65,7 +65,9 @@ impl Sym {
                 }
                 Sep::Reset(q) => {
                     self.q_reg.apply(op);
-                    self.q_reg.reset_by_mask(q);
+                    // reset = measure the qubits, then flip those that read 1
+                    let ones = self.q_reg.measure_mask(q).get();
+                    self.q_reg.apply(&crate::operator::x(ones));
                 }
             }
         }
